@@ -72,6 +72,16 @@ fn make_doc(format: &str, i: usize, size: usize) -> Vec<u8> {
 			d.extend_from_slice(tail.as_bytes());
 			d
 		}
+		"yamlx" => {
+			// a directive, an anchored and tagged collection and an alias: events that own heap data in libyaml
+			let head = format!("%YAML 1.2\n---\nd: &d !!map\n  i: {}\n  p: '", i);
+			let tail = "'\ne: *d\n...\n";
+			let pad = size - head.len() - tail.len();
+			let mut d = head.into_bytes();
+			d.extend(std::iter::repeat(b'y').take(pad));
+			d.extend_from_slice(tail.as_bytes());
+			d
+		}
 		"yaml" => {
 			let head = format!("---\ni: {}\np: '", i);
 			let tail = "'\n";
@@ -161,7 +171,7 @@ pub fn run_stream(req: &Value) -> Value {
 	let size = (req["size"].as_u64().unwrap_or(64) as usize).max(48);
 	let packet = (req["packet"].as_u64().unwrap_or(size as u64) as usize).max(1);
 	let fmt_name = if format.starts_with("yaml") { "yaml".to_string() } else { format.clone() };
-	let size = if format == "yaml16" { size.max(96) / 2 * 2 } else if format == "yaml32" { size.max(192) / 4 * 4 } else { size };
+	let size = if format == "yaml16" { size.max(96) / 2 * 2 } else if format == "yaml32" { size.max(192) / 4 * 4 } else if format == "yamlx" { size.max(80) } else { size };
 	let from = if req["detect"].as_bool().unwrap_or(false) { None } else { crate::session::parse_format(&fmt_name) };
 	// output size of one document, from a one-document run
 	let one = {
